@@ -1,4 +1,320 @@
-(* Select.v -- stub; the model that belongs here is being written. *)
+(* Select.v -- model of selective extraction (property C09).
+
+   Mirrors, line by line, of py7zr/py7zr.py:
+     SevenZipFile.extract        (targets normalised with helpers.remove_trailing_slash)
+     SevenZipFile._extract       (the name filter: exact membership, or, with recursive=True,
+                                  membership or `f.filename.startswith(target)`; registration
+                                  of the outputs under `f.id`; directories are never registered)
+     SevenZipFile._real_get_contents  (`folder.files = ArchiveFileList(offset=file_id)`: the
+                                  members of a folder's file list are numbered offset+index,
+                                  NOT with the header index they were stored under)
+     Worker.extract              (no folder / one folder / several folders: empty-stream
+                                  entries first, then folder by folder, folders without a
+                                  registered member skipped)
+     Worker._extract_single      (fold over the members with a cursor into the decoded
+                                  stream; unselected predecessors queued in just_check and
+                                  decoded-and-discarded by _check before the next selected
+                                  one; trailing unselected members not decoded at all).
+   `Worker.decompress` is represented by "the next `size` bytes of the folder's decoded stream":
+   that is Decomp.worker_next (out = firstn size (skipn (length acc) D)), with cursor = length acc.
+
+   Definitions only (all computable, extracted); the proofs are in SelectProofs.v. *)
 From P7 Require Import Prelude.
-Open Scope Z_scope.
-Definition select_dispatch (fn : Z) (a : tree) : tree := TL [TI (-2)].
+From Coq Require Import Arith.
+Local Open Scope nat_scope.
+
+(* ---- strings (names are lists of code points; '/' = 47, '.' = 46) ---------------------- *)
+Definition str := list Z.
+
+Fixpoint str_eqb (a b : str) : bool :=
+  match a, b with
+  | [], [] => true
+  | x :: a', y :: b' => (x =? y)%Z && str_eqb a' b'
+  | _, _ => false
+  end.
+
+(* s.startswith(t) *)
+Fixpoint startswith (s t : str) {struct t} : bool :=
+  match t with
+  | [] => true
+  | y :: t' => match s with
+               | [] => false
+               | x :: s' => (x =? y)%Z && startswith s' t'
+               end
+  end.
+
+Definition mem (s : str) (l : list str) : bool := existsb (str_eqb s) l.
+
+(* helpers.remove_trailing_slash: if path.endswith("/"): return path[:-1] *)
+Definition remove_trailing_slash (s : str) : str :=
+  match rev s with
+  | c :: r => if (c =? 47)%Z then rev r else s
+  | [] => s
+  end.
+
+Definition targets_norm (T : list str) : list str := map remove_trailing_slash T.
+
+(* the decision of _extract for one member (targets given; `set(targets)` only matters through
+   membership): recursive False -> `f.filename in targets`; recursive True ->
+   `f.filename in targets or any(f.filename.startswith(target) for target in targets)` *)
+Definition sel (T : list str) (recursive : bool) (n : str) : bool :=
+  let T' := targets_norm T in
+  if recursive then mem n T' || existsb (startswith n) T' else mem n T'.
+
+(* what the property asks for: the named members and, with recursive, the members beneath a
+   named directory (path prefix, i.e. string prefix followed by '/') *)
+Definition spec_sel (T : list str) (recursive : bool) (n : str) : bool :=
+  let T' := targets_norm T in
+  mem n T' || (recursive && existsb (fun t => startswith n (t ++ [47%Z])) T').
+
+(* ---- archives --------------------------------------------------------------------------- *)
+Inductive kind :=
+| KData (folder : nat) (content : bytes)   (* has a sub-stream in folder `folder` *)
+| KEmpty                                   (* empty-stream entry that is a file *)
+| KDir.                                    (* empty-stream entry with the directory attribute *)
+
+Record entry := mkEntry { ename : str; ekind : kind }.
+Definition archive := list entry.
+
+Definition is_data (e : entry) : bool := match ekind e with KData _ _ => true | _ => false end.
+Definition is_dir (e : entry) : bool := match ekind e with KDir => true | _ => false end.
+Definition econtent (e : entry) : bytes := match ekind e with KData _ c => c | _ => [] end.
+Definition esize (e : entry) : nat := length (econtent e).
+Definition in_folder (k : nat) (e : entry) : bool :=
+  match ekind e with KData f _ => f =? k | _ => false end.
+
+Fixpoint enum_from {A} (i : nat) (l : list A) : list (nat * A) :=
+  match l with [] => [] | x :: l' => (i, x) :: enum_from (S i) l' end.
+Definition enumerate {A} (l : list A) : list (nat * A) := enum_from 0 l.
+
+(* self.files: every entry with its header index as id *)
+Definition all_files (a : archive) : list (nat * entry) := enumerate a.
+(* [f for f in self.files if f.emptystream] *)
+Definition empties (a : archive) : list (nat * entry) :=
+  filter (fun m => negb (is_data (snd m))) (all_files a).
+(* the data members of folder k with the header index they are stored under *)
+Definition folder_members (a : archive) (k : nat) : list (nat * entry) :=
+  filter (fun m => in_folder k (snd m)) (all_files a).
+(* folders[k].files as iterated by the worker: ArchiveFileList(offset = header index of the
+   folder's first data member); __getitem__(index) = ArchiveFile(index + offset, ...) *)
+Definition folder_files (a : archive) (k : nat) : list (nat * entry) :=
+  match folder_members a k with
+  | [] => []
+  | (off, _) :: _ => map (fun jm => (off + fst jm, snd (snd jm))) (enumerate (folder_members a k))
+  end.
+(* the folder's decoded stream *)
+Definition folder_stream (a : archive) (k : nat) : bytes :=
+  flat_map (fun m => econtent (snd m)) (folder_members a k).
+(* header.main_streams.unpackinfo.numfolders (0 = no main_streams) *)
+Definition numfolders (a : archive) : nat :=
+  list_max (map (fun e => match ekind e with KData f _ => S f | _ => 0 end) a).
+
+(* ---- _extract: registration --------------------------------------------------------------
+   worker.register_filelike(f.id, None) for unselected members; directories are never
+   registered (created by _extract itself / ignored with a factory); everything else is
+   registered with its output name.  target_filepath.get(id, None): *)
+Definition reg_of (a : archive) (p : str -> bool) (id : nat) : option str :=
+  match nth_error a id with
+  | Some e => if p (ename e) && negb (is_dir e) then Some (ename e) else None
+  | None => None
+  end.
+
+(* ---- Worker._extract_single ------------------------------------------------------------- *)
+Record wstate := mkW { w_cur : nat; w_pend : list nat; w_out : list (str * bytes) }.
+
+(* _check: decode-and-discard every queued member *)
+Definition check_skip (cur : nat) (pend : list nat) : nat := fold_left Nat.add pend cur.
+
+Definition wstep (reg : nat -> option str) (stream : bytes) (st : wstate) (m : nat * entry) : wstate :=
+  let e := snd m in
+  match reg (fst m) with
+  | None => if is_data e then mkW (w_cur st) (w_pend st ++ [esize e]) (w_out st) else st
+  | Some out =>
+      let cur := check_skip (w_cur st) (w_pend st) in
+      if is_data e
+      then mkW (cur + esize e) [] (w_out st ++ [(out, firstn (esize e) (skipn cur stream))])
+      else mkW cur [] (w_out st ++ [(out, [])])
+  end.
+
+Definition extract_single (reg : nat -> option str) (stream : bytes) (ms : list (nat * entry))
+  : list (str * bytes) :=
+  w_out (fold_left (wstep reg stream) ms (mkW 0 [] [])).
+
+Definition is_some {A} (o : option A) : bool := match o with Some _ => true | None => false end.
+
+(* ---- Worker.extract (skip_notarget=True; sequential order; the threaded variant runs the
+   same per-folder calls concurrently) *)
+Definition worker (a : archive) (reg : nat -> option str) : list (str * bytes) :=
+  let nf := numfolders a in
+  if nf =? 0 then extract_single reg [] (empties a)
+  else if nf =? 1 then extract_single reg (folder_stream a 0) (all_files a)
+  else extract_single reg [] (empties a) ++
+       flat_map (fun k =>
+                   let fs := folder_files a k in
+                   if existsb (fun m => is_some (reg (fst m))) fs
+                   then extract_single reg (folder_stream a k) fs
+                   else [])
+                (seq 0 nf).
+
+(* ---- paths (pathlib parts of a relative POSIX path) -------------------------------------- *)
+Fixpoint split_slash (s : str) (cur : str) : list str :=
+  match s with
+  | [] => [rev cur]
+  | c :: s' => if (c =? 47)%Z then rev cur :: split_slash s' [] else split_slash s' (c :: cur)
+  end.
+Definition comps (s : str) : list str :=
+  filter (fun c => negb (str_eqb c []) && negb (str_eqb c [46%Z])) (split_slash s []).
+Definition path := list str.
+(* Path.mkdir(parents=True, exist_ok=True): the path and all its ancestors below the root *)
+Definition mkdir_p (p : path) : list path := map (fun k => firstn k p) (seq 1 (length p)).
+
+(* ---- the whole call ---------------------------------------------------------------------- *)
+Record result := mkR { delivered : list (str * bytes); mkdirs : list path }.
+
+(* to_dir = true: extraction into a (fresh) directory; false: into a WriterFactory.
+   mkdirs: the `mkdir(parents=True)` calls: the selected directory entries (target_dirs; the
+   code sorts them, immaterial for the set of directories made), then
+   `fileish.parent.mkdir(parents=True, exist_ok=True)` per delivered member. *)
+Definition run (to_dir : bool) (a : archive) (p : str -> bool) : result :=
+  let d := worker a (reg_of a p) in
+  mkR d (if to_dir
+         then map (fun e => comps (ename e)) (filter (fun e => p (ename e) && is_dir e) a)
+              ++ map (fun x => removelast (comps (fst x))) d
+         else []).
+
+Definition impl_extract (to_dir : bool) (a : archive) (T : list str) (recursive : bool) : result :=
+  run to_dir a (sel T recursive).
+(* extractall (and extract(targets=None)): no filter *)
+Definition impl_extract_all (to_dir : bool) (a : archive) : result := run to_dir a (fun _ => true).
+
+Definition dirs_created (r : result) : list path := flat_map mkdir_p (mkdirs r).
+
+(* ---- the specification side ---------------------------------------------------------------
+   every non-directory member once, under its own name with its own bytes, in the order the
+   worker visits the members *)
+Definition payload (m : nat * entry) : list (str * bytes) :=
+  if is_dir (snd m) then [] else [(ename (snd m), econtent (snd m))].
+Definition canon (ms : list (nat * entry)) : list (str * bytes) := flat_map payload ms.
+Definition worker_order (a : archive) : list (nat * entry) :=
+  let nf := numfolders a in
+  if nf =? 0 then empties a
+  else if nf =? 1 then all_files a
+  else empties a ++ flat_map (folder_members a) (seq 0 nf).
+Definition all_members (a : archive) : list (str * bytes) := canon (worker_order a).
+
+Definition spec_run (to_dir : bool) (a : archive) (p : str -> bool) : result :=
+  let d := filter (fun x => p (fst x)) (all_members a) in
+  mkR d (if to_dir
+         then map (fun e => comps (ename e)) (filter (fun e => p (ename e) && is_dir e) a)
+              ++ map (fun x => removelast (comps (fst x))) d
+         else []).
+
+(* ---- side conditions ---------------------------------------------------------------------- *)
+Definition names (a : archive) : list str := map ename a.
+
+Fixpoint nodupb (l : list str) : bool :=
+  match l with [] => true | x :: l' => negb (mem x l') && nodupb l' end.
+
+(* a sane relative name: at least one component, none empty, "." or ".." *)
+Definition name_ok (n : str) : bool :=
+  let cs := split_slash n [] in
+  forallb (fun c => negb (str_eqb c []) && negb (str_eqb c [46%Z]) && negb (str_eqb c [46%Z; 46%Z])) cs.
+
+(* the folder indices of the data members, in header order, are 0,..,0,1,..,1,2,.. *)
+Fixpoint folders_ok (expect : nat) (first : bool) (l : list nat) : bool :=
+  match l with
+  | [] => true
+  | f :: l' => if f =? expect then folders_ok expect false l'
+               else if negb first && (f =? S expect) then folders_ok (S expect) false l'
+               else false
+  end.
+Definition data_folders (a : archive) : list nat :=
+  flat_map (fun e => match ekind e with KData f _ => [f] | _ => [] end) a.
+
+Definition wf_archiveb (a : archive) : bool :=
+  nodupb (names a) && forallb name_ok (names a) && folders_ok 0 true (data_folders a).
+Definition wf_archive (a : archive) : Prop := wf_archiveb a = true.
+
+(* no member name is a proper string prefix of another except along '/' boundaries *)
+Definition prefix_ok (n t : str) : bool :=
+  negb (startswith n t) || str_eqb n t || startswith n (t ++ [47%Z]).
+Definition prefix_free_namesb (a : archive) : bool :=
+  forallb (fun t => forallb (fun n => prefix_ok n t) (names a)) (names a).
+Definition prefix_free_names (a : archive) : Prop := prefix_free_namesb a = true.
+(* the same for the (normalised) targets against the member names *)
+Definition targets_prefix_okb (a : archive) (T : list str) : bool :=
+  forallb (fun t => forallb (fun n => prefix_ok n t) (names a)) (targets_norm T).
+Definition targets_prefix_ok (a : archive) (T : list str) : Prop := targets_prefix_okb a T = true.
+
+(* the numbering of every folder's file list agrees with the header: the j-th data member of a
+   folder is stored at header index offset+j, i.e. no empty-stream entry lies between two data
+   members of one folder (only relevant with more than one folder) *)
+Fixpoint nat_list_eqb (l l' : list nat) : bool :=
+  match l, l' with
+  | [], [] => true
+  | x :: r, y :: r' => (x =? y) && nat_list_eqb r r'
+  | _, _ => false
+  end.
+Definition ids_consistentb (a : archive) : bool :=
+  (numfolders a <=? 1) ||
+  forallb (fun k => nat_list_eqb (map fst (folder_files a k)) (map fst (folder_members a k)))
+          (seq 0 (numfolders a)).
+Definition ids_consistent (a : archive) : Prop := ids_consistentb a = true.
+
+(* ---- dispatcher (FN 180-199) -------------------------------------------------------------- *)
+Local Open Scope Z_scope.
+
+Definition of_str (t : tree) : str := of_bytes t.
+Definition of_kind (t : tree) : kind :=
+  let tag := of_TI (tnth t 0) in
+  if tag =? 0 then KData (Z.to_nat (of_TI (tnth t 1))) (of_bytes (tnth t 2))
+  else if tag =? 1 then KEmpty else KDir.
+Definition of_entry (t : tree) : entry := mkEntry (of_str (tnth t 0)) (of_kind (tnth t 1)).
+Definition of_archive (t : tree) : archive := map of_entry (of_TL t).
+Definition of_targets (t : tree) : list str := map of_str (of_TL t).
+
+Definition t_nat (n : nat) : tree := TI (Z.of_nat n).
+Definition t_pair (x : str * bytes) : tree := TL [t_bytes (fst x); t_bytes (snd x)].
+Definition t_path (p : path) : tree := TL (map t_bytes p).
+Definition t_result (r : result) : tree :=
+  TL [TL (map t_pair (delivered r)); TL (map t_path (mkdirs r)); TL (map t_path (dirs_created r))].
+
+(* targets argument: () = None (extract everything), (T) = the collection T *)
+Definition pred_of (t : tree) (recursive : bool) : str -> bool :=
+  match of_TL t with
+  | [] => fun _ => true
+  | x :: _ => sel (of_targets x) recursive
+  end.
+Definition spec_pred_of (t : tree) (recursive : bool) : str -> bool :=
+  match of_TL t with
+  | [] => fun _ => true
+  | x :: _ => spec_sel (of_targets x) recursive
+  end.
+
+Definition select_dispatch (fn : Z) (a : tree) : tree :=
+  match fn with
+  (* FN 180 sel_impl_extract : (to_dir archive opt_targets recursive) -> (delivered mkdirs dirs) *)
+  | 180 => t_result (run (of_bool (tnth a 0)) (of_archive (tnth a 1))
+                         (pred_of (tnth a 2) (of_bool (tnth a 3))))
+  (* FN 181 sel_spec_extract : (to_dir archive opt_targets recursive) -> (delivered mkdirs dirs) *)
+  | 181 => t_result (spec_run (of_bool (tnth a 0)) (of_archive (tnth a 1))
+                              (spec_pred_of (tnth a 2) (of_bool (tnth a 3))))
+  (* FN 182 sel_selected : (targets recursive name) -> (impl_bool spec_bool) *)
+  | 182 => TL [t_bool (sel (of_targets (tnth a 0)) (of_bool (tnth a 1)) (of_str (tnth a 2)));
+               t_bool (spec_sel (of_targets (tnth a 0)) (of_bool (tnth a 1)) (of_str (tnth a 2)))]
+  (* FN 183 sel_remove_trailing_slash : str -> str *)
+  | 183 => t_bytes (remove_trailing_slash (of_str a))
+  (* FN 184 sel_folder_ids : archive -> (numfolders ((assigned_id real_id)...)...) *)
+  | 184 => let ar := of_archive a in
+           TL [t_nat (numfolders ar);
+               TL (map (fun k => TL (map (fun mm => TL [t_nat (fst (fst mm)); t_nat (fst (snd mm))])
+                                         (combine (folder_files ar k) (folder_members ar k))))
+                       (seq 0 (numfolders ar)))]
+  (* FN 185 sel_conditions : (archive targets) -> (wf prefix_free targets_prefix_ok ids_consistent) *)
+  | 185 => let ar := of_archive (tnth a 0) in
+           TL [t_bool (wf_archiveb ar); t_bool (prefix_free_namesb ar);
+               t_bool (targets_prefix_okb ar (of_targets (tnth a 1))); t_bool (ids_consistentb ar)]
+  (* FN 186 sel_comps : str -> path *)
+  | 186 => t_path (comps (of_str a))
+  | _ => TL [TI (-2)]
+  end.
